@@ -94,7 +94,7 @@ Definition restore_one (pf : path * fnode) : M unit :=
   let '(p, f) := pf in
   w <- get ;;
   if isdir (w_fs w) p then ret tt else
-  catch (effect "makedirs" (dirname p) (fun fs => makedirs fs (dirname p)) ;;;
+  catch (effect_p "makedirs" (dirname p) (fun fs => makedirs_p fs (dirname p)) ;;;
          effect "replace" p (fun fs => replace_in fs p f))
         (fun e => if is_os e then ret tt else raise e).
 
@@ -137,17 +137,42 @@ Fixpoint dirs_to_make (parent : path) (cf : option cfiles) : M (list path) :=
   | _ :: d => r <- dirs_to_make d cf ;; ret (r ++ [parent])
   end.
 
-(* _make_dirs(dir_) *)
-Definition make_one_dir (parent : path) : M unit :=
+(* sorted(dirs, key=lambda d: -len(d)) / key=len : stable insertion sort on the
+   length of the textual path *)
+Definition plen (p : path) : nat := String.length (path_str p).
+Definition sort_longest_first (l : list path) : list path := sort_by (fun a b => Nat.leb (plen b) (plen a)) l.
+Definition sort_shortest_first (l : list path) : list path := sort_by (fun a b => Nat.leb (plen a) (plen b)) l.
+
+(* _remove_empty_dirs *)
+Definition remove_empty_dirs (dirs : list path) : M unit :=
+  mapM_ (fun d => catch (effect "rmdir" d (fun fs => rmdir fs d))
+                        (fun e => if is_os e then ret tt else raise e))
+        (sort_longest_first dirs).
+
+
+(* _make_dirs(dir_): returns the directories that had to be made; when a step
+   fails with an OSError, the directories created so far are removed again *)
+Definition make_one_dir (parent : path) : M bool :=       (* true = mkdir succeeded *)
   w <- get ;;
   (if isfile (w_fs w) parent && cache_created_file (w_old w) parent
    then b <- back_up_and_remove parent ;; ret tt else ret tt) ;;;
-  catch (effect "mkdir" parent (fun fs => mkdir fs parent))
-        (fun e => if is_os_class XFileExists e then ret tt else raise e).
+  catch (effect "mkdir" parent (fun fs => mkdir fs parent) ;;; ret true)
+        (fun e => if is_os_class XFileExists e then ret false else raise e).
+
+Fixpoint make_dirs_loop (ds made : list path) : M unit :=
+  match ds with
+  | [] => ret tt
+  | d :: r =>
+      res <- attempt (make_one_dir d) ;;
+      match res with
+      | inl b => make_dirs_loop r (if b then made ++ [d] else made)
+      | inr e => if is_os e then remove_empty_dirs made ;;; raise e else raise e
+      end
+  end.
 
 Definition make_dirs (d : path) : M (list path) :=
   ds <- dirs_to_make d None ;;
-  mapM_ make_one_dir ds ;;;
+  make_dirs_loop ds [] ;;;
   ret ds.
 
 (* _make_room(dir_, make_room_filename) *)
